@@ -408,6 +408,16 @@ def gen_schema():
     return out
 
 
+def gen_code_datatypes():
+    from . import pytrans
+    return pytrans.gen_code_datatypes()
+
+
+def gen_code_substitution():
+    from . import pytrans
+    return pytrans.gen_code_substitution()
+
+
 GENERATORS = {
     "Schema": gen_schema,
     "Logger": gen_logger,
@@ -416,6 +426,8 @@ GENERATORS = {
     "Substitution": gen_substitution,
     "Datatypes": gen_datatypes,
     "Loader": gen_loader,
+    "CodeDatatypes": gen_code_datatypes,
+    "CodeSubstitution": gen_code_substitution,
 }
 
 
@@ -447,6 +459,8 @@ def regenerate(outdir, only=None):
 
 
 if __name__ == "__main__":
+    # run through the package module, so that pytrans and this code share one `Untranslatable` class
+    from harness.zcv import extract as _self
     here = os.path.dirname(os.path.abspath(__file__))
     out = os.path.join(here, "..", "..", "lean", "ZCV", "Gen")
-    print(regenerate(os.path.normpath(out)))
+    print(_self.regenerate(os.path.normpath(out)))
